@@ -97,6 +97,7 @@ int main(void) {
   ZV("EXF_E_OOB", IW_ERROR_OUT_OF_BOUNDS);
   ZV("EXF_E_NOT_ALIGNED", IW_ERROR_NOT_ALIGNED);
   ZV("EXF_E_OVERFLOW", IW_ERROR_OVERFLOW);
+  ZV("EXF_E_IO", IW_ERROR_IO_ERRNO);
   ZV("EXF_E_MAXOFF", IWFS_ERROR_MAXOFF);
   ZV("EXF_E_POLFAIL", IWFS_ERROR_RESIZE_POLICY_FAIL);
   ZV("EXF_E_OVERLAP", IWFS_ERROR_MMAP_OVERLAP);
